@@ -170,6 +170,31 @@ def run(ctx):
                     handle(case, S.ss_envs(e), 'ss:' + A.shape(e), 'smallscope')
                     ctx.count('smallscope_terms')
 
+    # 1b. correlated atoms: two comparisons over the same (or swapped) operands under every connective
+    relops = ('=', '!=', '<', '<=', '>', '>=')
+    operand_pairs = ((A.fld('x'), A.fld('y')), (A.fld('x'), A.num('1')), (('field', A.var('A'), 'v'), A.fld('x')),
+                     (('bin', '+', A.fld('x'), A.num('1')), A.fld('y')))
+    idx = 0
+    for op1 in relops:
+        for op2 in relops:
+            for conn in ('and', 'or', 'implies', 'iff', '=', '!='):
+                for swapped in (False, True):
+                    for neg in (False, True):
+                        idx += 1
+                        if not ctx.mine(idx):
+                            continue
+                        a, b = operand_pairs[idx % len(operand_pairs)] if ctx.tier == 'quick' else gen.pick(rng, operand_pairs)
+                        c1 = ('bin', op1, a, b)
+                        c2 = ('bin', op2, b, a) if swapped else ('bin', op2, a, b)
+                        e = ('bin', conn, c1, c2)
+                        if neg:
+                            e = A.not_(e)
+                        if idx % 5 == 0:
+                            e = ('bin', gen.pick(rng, ('or', 'and')), e, ('bin', gen.pick(rng, ('or', 'and')), A.fld('p'), c2))
+                        case = S.Case(e, S.SS_THIS, {'A': S.SS_ALIAS}, 'predicate' if idx % 3 == 0 else 'expression')
+                        handle(case, S.ss_envs(e), 'corr:' + A.shape(e) + f'|{op1}{op2}{conn}{swapped}', 'correlated')
+                        ctx.count('correlated_terms')
+
     # 2. random typed terms, simplifier-biased
     for n in range(ctx.share(B['random'])):
         t = gen.pick(rng, (gen.BOOL, gen.BOOL, gen.BOOL, gen.NUM, gen.NUM, gen.STR))
